@@ -2588,10 +2588,12 @@ impl<'a> PaymentPath<'a> {
 					.map_err(|_| idx + 1)?;
 
 			// floor(((hop_max_msat - agg_base) * 1_000_000) / (1_000_000 + agg_prop))
+			// The rounding slack added to the numerator must stay below 1_000_000, or the result plus
+			// the following hops' fees can exceed `hop_max_msat` once `agg_prop` reaches 100%.
 			let hop_max_final_value_contribution = (hop_max_msat as u128)
 				.checked_sub(next_hops_aggregated_base as u128)
 				.and_then(|f| f.checked_mul(1_000_000))
-				.and_then(|f| f.checked_add(next_hops_aggregated_prop as u128))
+				.and_then(|f| f.checked_add(cmp::min(next_hops_aggregated_prop, 999_999) as u128))
 				.map(|f| f / ((next_hops_aggregated_prop as u128).saturating_add(1_000_000)));
 
 			if let Some(hop_contribution) = hop_max_final_value_contribution {
